@@ -272,6 +272,28 @@ class World:
             e['obj'].basis = toks[2]
             e['recipe'].append(toks[2])
             return self.show_rxn(e['obj'], PKGS[e['pkg']]['chems'])
+        if op == 'massbal':
+            e = self.objs[toks[1]]
+            rxn = e['obj']
+            v = kv(toks, 'variable', '-')
+            rxn.correct_mass_balance(variable=None if v == '-' else v)
+            # the reaction was balanced already: the solve must hand the coefficient back.  Tolerance 1e-6 relative:
+            # flexsolve.aitken_secant stops within ~1e-9 absolute of the root (observed 8e-10), far below the O(0.1)
+            # effect of a wrong molecular weight.
+            intent = self.intent_of(toks[1], e)
+            if intent is not None and rxn._basis == intent['basis'] and not rxn._phases:
+                c = np.array([float(F(x)) for x in intent['nu'][0]], float)
+                ri = int(rxn._reactant_index)
+                if c[ri] != 0:
+                    exp = c / (-c[ri])
+                    nu = np.asarray(rxn._stoichiometry.to_array(), float)
+                    if nu.shape == exp.shape and np.abs(nu - exp).max() > 1e-6 * max(1., float(np.abs(exp).max())):
+                        j = int(np.abs(nu - exp).argmax())
+                        failures.append({'signature': 'rxn:mass-balance-correction-unbalances', 'op_index': i,
+                                         'what': f'correct_mass_balance(variable={v!r}) on the balanced reaction '
+                                                 f'{toks[1]} changed the coefficient of {rxn.chemicals.IDs[j]} from '
+                                                 f'{float(exp[j])!r} to {float(nu[j])!r}'})
+            return 'ok'
         if op == 'repkg':
             e = self.objs[toks[1]]
             k2 = int(toks[2])
@@ -940,6 +962,8 @@ def run_impl(case: Case) -> ImplResult:
             if kv(toks, 'correct') == '1': tags.add('balance:constructor-flag')
         elif toks[0] == 'repkg':
             tags.add('repkg')
+        elif toks[0] == 'massbal':
+            tags.add('massbal')
         elif toks[0] == 'balance':
             cs = kv(toks, 'constants', '-')
             tags.add('balance:constants-' + ('default' if cs == '-' else ('two' if ',' in cs else 'one')))
@@ -1647,7 +1671,18 @@ def gen_case(rng):
             if rng.random() < 0.4 else []
         alone = [f'call {late} ' + c.split(' ', 2)[2] for c in calls if ' view ' not in c and ' arr ' not in c][:1]
         calls = first + late_ops + alone + calls + tail
-    ops = [f'pkg {k}' for k in used_pkgs] + body + extra + calls
+    tail_ops = []
+    if not mal and rng.random() < 0.06:
+        # correct_mass_balance(variable=…) on a fresh, balanced, phase-less molar reaction (not used afterwards)
+        dm = gen_stoich(rng, PKGS[rk_orig]['ids'], True)
+        idsm = PKGS[rk_orig]['ids']
+        rum = rng.choice([u for u in dm if dm[u] < 0])
+        intent['rm'] = {'nu': [[str(F(float(dm.get(u, 0)))) for u in idsm]], 'basis': 'mol', 'reactant': rum}
+        tail_ops.append(f'rxn rm pkg={rk_orig} basis=mol X=1/2 r={U[rum].ID} phases=- def=dict | '
+                        + ','.join(f'{U[u].ID}:{frac(float(c))}' for u, c in dm.items()))
+        var = rng.choice(sorted(dm) + [None])
+        tail_ops.append(f'massbal rm variable={U[var].ID if var is not None else "-"}')
+    ops = [f'pkg {k}' for k in used_pkgs] + body + extra + calls + tail_ops
     meta = {'intent': intent}
     if dup_names: meta['dup'] = dup_names
     if mal: meta['malformed'] = mal
